@@ -822,6 +822,9 @@ func (e *CEnv) typeExpr(x Expr) types.Type {
 		if n.Fn == "slice" && len(n.Args) == 1 {
 			return types.NewSlice(e.typeExpr(n.Args[0]))
 		}
+		if n.Fn == "mapof" && len(n.Args) == 2 {
+			return types.NewMap(types.Unalias(e.typeExpr(n.Args[0])), types.Unalias(e.typeExpr(n.Args[1])))
+		}
 	case *ESel:
 		p := e.eval(n.X)
 		if p.Pkg != nil {
@@ -830,6 +833,10 @@ func (e *CEnv) typeExpr(x Expr) types.Type {
 			}
 		}
 	case *EIdent:
+		if n.Name == "any" {
+			// the empty interface as the code spells it (interface{}): type tags are keyed by the printed type
+			return types.NewInterfaceType(nil, nil).Complete()
+		}
 		if e.pkg != nil {
 			if obj, ok := e.pkg.Scope().Lookup(n.Name).(*types.TypeName); ok {
 				return obj.Type()
